@@ -11,3 +11,7 @@ package dcs
 
 //@ func (*app/dcs.OptimizationClusterAdapter).GetMaster
 //@   flags inline
+
+// ---- C20 -----------------------------------------------------------------------------------------------------
+//@ define adapterOK(o *OptimizationClusterAdapter) = o.cluster != nil && clusterOK(o.cluster)
+//@ typeinv *app/dcs.OptimizationClusterAdapter adapterOK init app/dcs.NewOptimizationClusterAdapter
